@@ -241,3 +241,15 @@ fn c40_encode_run_of_3() {
 fn text_encode_run_of_3() {
     check_run(true, 3);
 }
+
+#[kani::proof]
+#[kani::unwind(14)]
+fn c40_encode_run_of_4() {
+    check_run(false, 4);
+}
+
+#[kani::proof]
+#[kani::unwind(14)]
+fn text_encode_run_of_4() {
+    check_run(true, 4);
+}
